@@ -139,6 +139,11 @@ inductive SegRel (N : ℕ) : List Qasm.Op → List IOp → Prop where
       denPrims N ρ0 prims = some A → denX N (gs.map xOfI) = some B → PhaseEqN A B →
       (∀ g ∈ gs, g.cctrl = ccOf c ∧ g.cval = cvOf c) → SegRel N rest rest' →
       SegRel N (prims.map (Qasm.Op.prim c) ++ rest) (gs.map IOp.gate ++ rest')
+  /-- repaired importer: built-ins under a condition that NO classical state satisfies (`k ≥ 2^n`) have no
+  counterpart in the circuit -/
+  | skipped (c : Cond) (prims : List Prim) (rest : List Qasm.Op) (rest' : List IOp) :
+      (∀ st : ℕ → Bool, c.holds st = false) → SegRel N rest rest' →
+      SegRel N (prims.map (Qasm.Op.prim (some c)) ++ rest) rest'
   | meas (q b : ℕ) (rest : List Qasm.Op) (rest' : List IOp) :
       SegRel N rest rest' → SegRel N (.measure none q b :: rest) (.meas q b :: rest')
   | barrier (qs : List ℕ) (rest : List Qasm.Op) (rest' : List IOp) :
@@ -150,6 +155,22 @@ theorem import_sound_of_find {n : Str} {d : GateDef}
   have hname : d.name = n := by simpa using List.find?_some hd
   subst hname
   exact import_sound_table d hmem hne
+
+/-- a condition the repaired importer skips never holds -/
+theorem condUnsat_never (c : Option Cond) (h : condUnsat c = true) :
+    ∃ c', c = some c' ∧ ∀ st : ℕ → Bool, c'.holds st = false := by
+  cases c with
+  | none => simp [condUnsat] at h
+  | some c' =>
+    refine ⟨c', rfl, fun st => ?_⟩
+    simp only [condUnsat, condSkipped, Bool.and_eq_true, decide_eq_true_eq] at h
+    exact QipVerif.C04.cond_never_holds c'.bits c'.k h.2 st
+
+theorem condWf_cvBad {c : Option Cond} (h : CondWf c) (hun : ¬ condUnsat c = true) :
+    cvBad (ccOf c) (cvOf c) = false := by
+  rcases h with h | h
+  · exact absurd h hun
+  · exact h
 
 /-- all flat operations of a well-formed list -/
 theorem flats_import_den (N : ℕ) : ∀ fl : List FlatOp, (∀ f ∈ fl, FlatWf N f) →
@@ -167,32 +188,56 @@ theorem flats_import_den (N : ℕ) : ∀ fl : List FlatOp, (∀ f ∈ fl, FlatWf
       obtain ⟨A, B, h1, h2, h3⟩ := flat_import_U N c a b l q hq
       refine ⟨[Prim.U a b l q].map (Qasm.Op.prim c) ++ ops, ?_, ?_⟩
       · simp [expandOps, expandOp, hops, bind, Except.bind]
-      · have := SegRel.gates c [Prim.U a b l q] [⟨cs!"QASMU", [q], none, .many [a, b, l], ccOf c, cvOf c⟩]
-          A B ops _ h1 h2 h3 (by simp) hrel
-        simpa [List.flatMap_cons, gatesOf] using this
+      · by_cases hun : condUnsat c = true
+        · obtain ⟨c', rfl, hnever⟩ := condUnsat_never c hun
+          have := SegRel.skipped c' [Prim.U a b l q] ops _ hnever hrel
+          simpa [List.flatMap_cons, gatesOf, hun] using this
+        · have := SegRel.gates c [Prim.U a b l q] [⟨cs!"QASMU", [q], none, .many [a, b, l], ccOf c, cvOf c⟩]
+            A B ops _ h1 h2 h3 (by simp) hrel
+          simpa [List.flatMap_cons, gatesOf, hun] using this
     | CX c a b =>
       obtain ⟨ha, hb, hab, hcv⟩ := hw
       obtain ⟨A, B, h1, h2, h3⟩ := flat_import_CX N c a b ha hb hab
       refine ⟨[Prim.CX a b].map (Qasm.Op.prim c) ++ ops, ?_, ?_⟩
       · simp [expandOps, expandOp, hops, bind, Except.bind]
-      · have := SegRel.gates c [Prim.CX a b] [⟨cs!"CNOT", [b], some [a], .none, ccOf c, cvOf c⟩]
-          A B ops _ h1 h2 h3 (by simp) hrel
-        simpa [List.flatMap_cons, gatesOf] using this
+      · by_cases hun : condUnsat c = true
+        · obtain ⟨c', rfl, hnever⟩ := condUnsat_never c hun
+          have := SegRel.skipped c' [Prim.CX a b] ops _ hnever hrel
+          simpa [List.flatMap_cons, gatesOf, hun] using this
+        · have := SegRel.gates c [Prim.CX a b] [⟨cs!"CNOT", [b], some [a], .none, ccOf c, cvOf c⟩]
+            A B ops _ h1 h2 h3 (by simp) hrel
+          simpa [List.flatMap_cons, gatesOf, hun] using this
     | call c n ps t =>
       obtain ⟨⟨d, hd, htl, hpl⟩, hn, hr, hcv⟩ := hw
-      by_cases hid : n = cs!"id"
-      · subst hid
-        obtain ⟨prims, A, h1, h2, h3, h4⟩ := flat_import_id N c ps t d hd htl hpl hn hr
-        refine ⟨prims.map (Qasm.Op.prim c) ++ ops, ?_, ?_⟩
+      by_cases hun : condUnsat c = true
+      · -- skipped by the repaired importer: only the standard's expansion is needed
+        obtain ⟨c', rfl, hnever⟩ := condUnsat_never c hun
+        obtain ⟨prims, h1⟩ : ∃ prims, expandCall qelib1.reverse n ps t = .ok prims := by
+          by_cases hid : n = cs!"id"
+          · subst hid
+            obtain ⟨prims, _, h1, _⟩ := flat_import_id N none ps t d hd htl hpl hn hr
+            exact ⟨prims, h1⟩
+          · obtain ⟨prims, _, _, _, h1, _⟩ :=
+              flat_import_call N none n ps t (import_sound_of_find hd hid) d hd htl hpl hn hr (by simp [cvBad, ccOf, cvOf])
+            exact ⟨prims, h1⟩
+        refine ⟨prims.map (Qasm.Op.prim (some c')) ++ ops, ?_, ?_⟩
         · simp [expandOps, expandOp, hops, h1, bind, Except.bind]
-        · have := SegRel.gates c prims [] A 1 ops _ h3 (denX_nil N) h4 (by simp) hrel
-          simpa [List.flatMap_cons, gatesOf, h2] using this
-      · obtain ⟨prims, g, A, B, h1, h2, hcc, hcval, h3, h4, h5⟩ :=
-          flat_import_call N c n ps t (import_sound_of_find hd hid) d hd htl hpl hn hr hcv
-        refine ⟨prims.map (Qasm.Op.prim c) ++ ops, ?_, ?_⟩
-        · simp [expandOps, expandOp, hops, h1, bind, Except.bind]
-        · have := SegRel.gates c prims [g] A B ops _ h3 h4 h5 (by simp [hcc, hcval]) hrel
-          simpa [List.flatMap_cons, gatesOf, h2] using this
+        · have := SegRel.skipped c' prims ops _ hnever hrel
+          simpa [List.flatMap_cons, gatesOf, hun] using this
+      · have hcv := condWf_cvBad hcv hun
+        by_cases hid : n = cs!"id"
+        · subst hid
+          obtain ⟨prims, A, h1, h2, h3, h4⟩ := flat_import_id N c ps t d hd htl hpl hn hr
+          refine ⟨prims.map (Qasm.Op.prim c) ++ ops, ?_, ?_⟩
+          · simp [expandOps, expandOp, hops, h1, bind, Except.bind]
+          · have := SegRel.gates c prims [] A 1 ops _ h3 (denX_nil N) h4 (by simp) hrel
+            simpa [List.flatMap_cons, gatesOf, h2, hun] using this
+        · obtain ⟨prims, g, A, B, h1, h2, hcc, hcval, h3, h4, h5⟩ :=
+            flat_import_call N c n ps t (import_sound_of_find hd hid) d hd htl hpl hn hr hcv
+          refine ⟨prims.map (Qasm.Op.prim c) ++ ops, ?_, ?_⟩
+          · simp [expandOps, expandOp, hops, h1, bind, Except.bind]
+          · have := SegRel.gates c prims [g] A B ops _ h3 h4 h5 (by simp [hcc, hcval]) hrel
+            simpa [List.flatMap_cons, gatesOf, h2, hun] using this
     | measure c q b =>
       have hc : c = none := hw
       subst hc
@@ -257,6 +302,14 @@ theorem segRel_unitary (N : ℕ) (ops : List Qasm.Op) (iops : List IOp) (h : Seg
       simp [List.filterMap_append, List.filterMap_map, Function.comp_def, xOfIOp]
     rw [hf]
     exact denX_append N _ _ _ _ h2 j2
+  | skipped c prims rest rest' _ _ ih =>
+    intro p hp
+    obtain ⟨pa, pb, k1, k2, rfl⟩ := opsPrims_append_inv _ _ _ hp
+    have := opsPrims_map_inv (some c) prims pa k1
+    subst this
+    cases pa with
+    | nil => simpa using ih pb k2
+    | cons x r => simp [opsPrims] at k1
   | meas q b rest rest' _ _ =>
     intro p hp
     simp [opsPrims] at hp
